@@ -60,6 +60,49 @@ def rename_in_place(fn: ast.AST, mapping: Dict[str, str]) -> None:
             n.id = mapping[n.id]
 
 
+_FLIP = {ast.Lt: ast.Gt, ast.Gt: ast.Lt, ast.LtE: ast.GtE, ast.GtE: ast.LtE, ast.Eq: ast.Eq, ast.NotEq: ast.NotEq}
+
+
+def single_compares(fn: ast.AST) -> List[ast.Compare]:
+    out = [n for n in ast.walk(fn) if isinstance(n, ast.Compare) and len(n.ops) == 1 and type(n.ops[0]) in _FLIP]
+    out.sort(key=lambda n: (n.lineno, n.col_offset, getattr(n, "end_col_offset", 0) or 0))
+    return out
+
+
+def compare_text(n: ast.Compare, flipped: bool = False) -> str:
+    if not flipped:
+        return ast.unparse(n)
+    m = ast.Compare(left=n.comparators[0], ops=[_FLIP[type(n.ops[0])]()], comparators=[n.left])
+    return ast.unparse(m)
+
+
+def unflip(qualname: str, fn: ast.AST) -> int:
+    """Undo pure operand flips of comparisons (a < b written as b > a) relative to the reference tree."""
+    ref = reference_compares().get(qualname)
+    if not ref:
+        return 0
+    cur = single_compares(fn)
+    if len(cur) != len(ref):
+        return 0
+    k = 0
+    for n, r in zip(cur, ref):
+        if compare_text(n) != r and compare_text(n, flipped=True) == r:
+            n.left, n.comparators, n.ops = n.comparators[0], [n.left], [_FLIP[type(n.ops[0])]()]
+            k += 1
+    return k
+
+
+_REFC: Optional[Dict[str, List[str]]] = None
+
+
+def reference_compares() -> Dict[str, List[str]]:
+    global _REFC
+    if _REFC is None:
+        p = os.path.join(os.path.dirname(os.path.dirname(os.path.abspath(__file__))), "spec", "reference_compares.json")
+        _REFC = json.load(open(p)) if os.path.exists(p) else {}
+    return _REFC
+
+
 _REF: Optional[Dict[str, List[str]]] = None
 
 
